@@ -256,6 +256,10 @@ func definitionsReadOnly(c *Check, a *Anchors, rule string) {
 							c.OK(rule, key, l.Pos(), "call-owned: "+why)
 							continue
 						}
+						if root == a.DeferRunner && owner == "Cmd.Cmd" {
+							c.OK(rule, key, l.Pos(), "call-owned: "+ownedAllow["task.(*Executor).runDeferred|Cmd.Cmd"])
+							continue
+						}
 						if strings.Contains(fnDisplay(root), "setupDefaults") {
 							c.OK(rule, key, l.Pos(), "call-owned: "+ownedAllow["task.(*Executor).setupDefaults|Taskfile"])
 							continue
@@ -321,32 +325,67 @@ func c11MemoKey(c *Check, a *Anchors) {
 			}
 		}
 	}
-	// inputs: parameters mentioned (directly or via single-assignment locals) by the RunCommandOptions literal
+	// inputs: parameters that flow (directly, via single-assignment locals, or through a helper's parameters) into the
+	// Command / Dir / Env fields of the RunCommandOptions literal
 	inputs := map[*types.Var]bool{}
-	inspectBody(fb.Body, func(nd ast.Node) bool {
-		cl, ok := nd.(*ast.CompositeLit)
-		if !ok {
-			return true
-		}
-		if tv, ok := info.Types[cl]; !ok || !isNamed(tv.Type, PkgExecext, "RunCommandOptions") {
-			return true
-		}
-		for _, p := range params {
-			for _, e := range cl.Elts {
-				kv, ok := e.(*ast.KeyValueExpr)
-				if !ok {
-					continue
-				}
-				if k := exprStr(kv.Key); k != "Command" && k != "Dir" && k != "Env" {
-					continue
-				}
-				if mentionsVia(info, fb.Body, kv.Value, p, 2) {
+	var scan func(g *FuncBody, bind map[*types.Var]ast.Expr, depth int)
+	scan = func(g *FuncBody, bind map[*types.Var]ast.Expr, depth int) {
+		ginfo := g.Info()
+		flows := func(e ast.Expr) {
+			for _, p := range params {
+				if g == fb && mentionsVia(info, fb.Body, e, p, 2) {
 					inputs[p] = true
 				}
 			}
+			// through the helper's own parameters
+			for hp, arg := range bind {
+				if mentionsVia(ginfo, g.Body, e, hp, 2) {
+					for _, p := range params {
+						if mentionsVia(info, fb.Body, arg, p, 2) {
+							inputs[p] = true
+						}
+					}
+				}
+			}
 		}
-		return true
-	})
+		inspectBody(g.Body, func(nd ast.Node) bool {
+			switch x := nd.(type) {
+			case *ast.CompositeLit:
+				if tv, ok := ginfo.Types[x]; ok && isNamed(tv.Type, PkgExecext, "RunCommandOptions") {
+					for _, e := range x.Elts {
+						if kv, ok := e.(*ast.KeyValueExpr); ok {
+							if k := exprStr(kv.Key); k == "Command" || k == "Dir" || k == "Env" {
+								flows(kv.Value)
+							}
+						}
+					}
+				}
+			case *ast.CallExpr:
+				if depth > 0 && g == fb {
+					if fn, ok := callee(ginfo, x).(*types.Func); ok {
+						if h := c.P.DeclOf(fn); h != nil && h.Pkg == fb.Pkg && h != fb {
+							b := map[*types.Var]ast.Expr{}
+							pi := 0
+							for _, fld := range h.Type.Params.List {
+								for _, id := range fld.Names {
+									if pi < len(x.Args) {
+										if pv, ok := h.Info().Defs[id].(*types.Var); ok {
+											b[pv] = x.Args[pi]
+										}
+									}
+									pi++
+								}
+							}
+							c.Fn(h)
+							scan(h, b, depth-1)
+						}
+					}
+				}
+			}
+			return true
+		})
+	}
+	scan(fb, nil, 1)
 	// key: parameters mentioned by index expressions on the cache
 	keyed := map[*types.Var]bool{}
 	nIdx := 0
